@@ -376,6 +376,35 @@ func init() {
 					c.Sample(map[string]interface{}{"shape": shape, "points": n, "parts": k, "kind": refmodel.KindName(g)})
 				},
 			},
+			{
+				// "collections nested to any depth": chains of more than ten thousand collections (the depth at which
+				// encoding/json and protobuf give up; these codecs have no such limit and the encoder writes them)
+				Name: "collections-nested-beyond-ten-thousand", Count: h.Fixed(6, 120), BudgetSec: 120,
+				Run: func(c *h.Ctx, idx uint64, r *h.Rand) {
+					depth := []int{10001, 10000, 10002, 12345, 16385, 9999}[idx%6]
+					var g orb.Geometry = orb.Point{float64(r.Range(-90, 90)), r.Float64()}
+					if r.Bool() {
+						g = orb.LineString{{1, 2}, {r.Float64(), 4}}
+					}
+					for i := 0; i < depth; i++ {
+						if i == depth/2 && r.Bool() {
+							g = orb.Collection{orb.Point{5, 6}, g}
+							continue
+						}
+						g = orb.Collection{g}
+					}
+					snap := refmodel.Copy(g)
+					want := refmodel.Norm(refmodel.Copy(g))
+					order := []binary.ByteOrder{binary.LittleEndian, binary.BigEndian}[r.Intn(2)]
+					srid := 0
+					if r.Bool() {
+						srid = srids[r.Intn(len(srids))]
+					}
+					c01one(c, r, g, snap, want, false, order, srid)
+					c.Nontrivial(h.Mix(uint64(depth), refmodel.Hash(g)))
+					c.Max("collections open at one place", float64(depth), nil)
+				},
+			},
 		},
 	})
 }
@@ -676,6 +705,33 @@ func c01one(c *h.Ctx, r *h.Rand, g, snap, want orb.Geometry, isNil bool, order b
 	}
 	if _, _, err := dec.Decode(); err != io.EOF {
 		fail("", "stream decoder does not report io.EOF at the end of a concatenated stream", sv(err))
+	}
+
+	// the same stream handed to one new decoder per geometry, through a reader that is nothing but an io.Reader (a
+	// connection, a file): a decoder takes its own geometry's bytes off the stream and no more, so the next decoder, and
+	// whatever the caller frames behind the geometries, find their bytes where they belong
+	{
+		trailer := []byte("\x00trailer\xff")
+		plain := struct{ io.Reader }{bytes.NewReader(append(append([]byte{}, cat...), trailer...))}
+		for i := 0; i < k; i++ {
+			gi, si, err := ewkb.NewDecoder(plain).Decode()
+			if !check(fmt.Sprintf("ewkb.NewDecoder(plain io.Reader holding %d geometries).Decode(), geometry %d", k, i), gi, si, srid, err) {
+				break
+			}
+		}
+		if rest, _ := io.ReadAll(plain); !bytes.Equal(rest, trailer) {
+			fail("", "a stream decoder took bytes off the stream that lie behind its geometry", map[string]interface{}{"left_on_the_stream": len(rest), "want": len(trailer)})
+		}
+		plainW := struct{ io.Reader }{io.MultiReader(bytes.NewReader(wdata), iotest.OneByteReader(bytes.NewReader(wdata)), bytes.NewReader(trailer))}
+		for i := 0; i < 2; i++ {
+			gi, err := wkb.NewDecoder(plainW).Decode()
+			if !check(fmt.Sprintf("wkb.NewDecoder(plain io.Reader holding 2 geometries).Decode(), geometry %d", i), gi, 0, 0, err) {
+				break
+			}
+		}
+		if rest, _ := io.ReadAll(plainW); !bytes.Equal(rest, trailer) {
+			fail("", "a stream decoder took bytes off the stream that lie behind its geometry", map[string]interface{}{"left_on_the_stream": len(rest), "want": len(trailer), "decoder": "wkb"})
+		}
 	}
 
 	// ---------- scanners x destinations x framings
